@@ -21,8 +21,69 @@ MIN_DECISIVE = {"accountant": 50, "complete-ordered": 50, "end-stream": 50, "qui
 N_CASES = {"quick": 1500, "thorough": 40000}
 
 
+def _gen_prio_silent(rng, tier):
+    """Deep dependency chains re-arranged by PRIORITY frames (incl. making a stream depend on its own dependents, RFC 7540 5.3.3) in front
+    of a client that has opened all windows in advance and then says nothing more: whatever the scheduler does with its tree, every
+    response must go out completely - no later WINDOW_UPDATE will come to the rescue."""
+    for i in range(150 if tier == "quick" else 4000):
+        fb = FrameBuilder()
+        rspec = {"kind": "h2", "initial_window": 1 << 24, "max_frame": rng.choice([16384, 65536]), "credit": "none"}
+        n = rng.choice([3, 4, 5, 6])
+        base = 7500000 + i * 10
+        streams, by_tag = [], {}
+        blob = bytearray(client_preface(fb, rspec) + fb.window_update(0, 1 << 24))
+        parent = {}
+        for k in range(n):
+            sid = 1 + 2 * k
+            tag = base + k
+            size = rng.choice([0, 1, 3000, 30000, 70000, 200000])
+            chunk = rng.choice([1024, 16384, size or 1])
+            by_tag[str(tag)] = [["recv_until_end"], ["send", {"type": "http.response.start", "status": 200, "headers": [(b"x-tag", b"%d" % tag)]}],
+                                ["yield", rng.choice([0, 1, 3])], ["send_stream", ("c9", tag), size, max(chunk, size // 200 + 1), True]]
+            dep = rng.choice([s_["sid"] for s_ in streams]) if streams and rng.random() < 0.75 else 0
+            parent[sid] = dep
+            streams.append({"sid": sid, "tag": tag, "size": size, "rst_at": None, "dep": dep})
+            blob += fb.headers(sid, [(b":method", b"GET"), (b":scheme", b"http"), (b":path", b"/t%d" % tag), (b":authority", b"h")],
+                               end_stream=True, priority=(dep, rng.choice([1, 16, 200, 255]), rng.random() < 0.3) if dep or rng.random() < 0.3 else None)
+        frames = []
+        for _ in range(rng.choice([1, 2, 3, 5])):
+            kids = [s_ for s_ in parent if parent[s_]]
+            if kids and rng.random() < 0.7:
+                c = rng.choice(kids)          # an ancestor of c is made dependent on c
+                a = parent[c]
+                hops = 0
+                while parent.get(a) and parent[a] != c and rng.random() < 0.4 and hops < 8:
+                    a = parent[a]
+                    hops += 1
+                if a == c or not a:
+                    continue  # a stream depending on itself is a protocol error, not a re-prioritisation
+                frames.append(fb.priority(a, dep=c, weight=rng.choice([1, 16, 255]), excl=rng.random() < 0.5))
+                parent[c], parent[a] = parent.get(a, 0), c
+            else:
+                a, b = rng.sample(list(parent), 2)
+                frames.append(fb.priority(a, dep=b, weight=rng.choice([1, 16, 255]), excl=rng.random() < 0.3))
+                parent[a] = b
+        when = rng.choice(["with_requests", "after", "staggered"])
+        credit = [["react", "credit_only", 0, 1 << 24]]  # the WINDOW_UPDATE(0) written as part of the opening
+        if when == "with_requests":
+            client = credit + [["feed", bytes(blob) + b"".join(frames)], ["settle"]]
+        elif when == "after":
+            client = credit + [["feed_nosettle", bytes(blob)], ["turns", rng.choice([0, 1, 2, 5, 20])], ["feed", b"".join(frames)], ["settle"]]
+        else:
+            client = credit + [["feed_nosettle", bytes(blob)]]
+            for fr in frames:
+                client += [["turns", rng.choice([0, 1, 2, 3, 7, 30])], ["feed_nosettle", fr]]
+            client += [["settle"]]
+        yield {"family": "prio-silent." + when, "backends": ["asyncio", "trio"], "config": {"keep_alive_timeout": 5000}, "conn": {},
+               "apps": {"default": [["recv_until_end"], ["respond", 200, [], b"d"]], "by_tag": by_tag}, "client": client, "reactor": rspec,
+               "truth": {"streams": streams, "iw": 1 << 24, "mf": rspec["max_frame"], "policy": "prio-silent", "total": sum(s_["size"] for s_ in streams),
+                         "prio_cycle": True},
+               "sched": {"seed": rng.randrange(1 << 30), "net_jitter": rng.choice([None, [0.3, 3]])}, "horizon": 100.0}
+
+
 def gen(rng, tier):
     yield from _gen_batched(rng, tier)
+    yield from _gen_prio_silent(rng, tier)
     yield from _gen_main(rng, tier)
 
 
@@ -159,17 +220,22 @@ def _gen_batched(rng, tier):
                  "wu_answered": fb.window_update(1, 100), "rst_unknown_closed": fb.rst(1, 8) + fb.rst(1, 8), "nothing": b"",
                  "settings_iw": b""}[first]
         need = size + 100
-        batch += fb.window_update(3, need) + fb.window_update(0, need)
+        batch += fb.window_update(3, need)
+        batch2 = fb.window_update(0, need)
         new_stream = rng.random() < 0.5
         if new_stream:
-            batch += fb.headers(5, [(b":method", b"GET"), (b":scheme", b"http"), (b":path", b"/t%d" % (base + 2)), (b":authority", b"h")], end_stream=True)
+            batch2 += fb.headers(5, [(b":method", b"GET"), (b":scheme", b"http"), (b":path", b"/t%d" % (base + 2)), (b":authority", b"h")], end_stream=True)
+        stagger = rng.choice([None, None, 0, 1, 1, 2, 3, 4, 6])
         streams = [{"sid": 3, "tag": base + 1, "size": size, "rst_at": None, "dep": 0}]
         if new_stream:
             streams.append({"sid": 5, "tag": base + 2, "size": len(b"late-%d" % (base + 2)), "rst_at": None, "dep": 0, "literal": True})
         yield {"family": "batched.%s.%s" % (shape1, first), "backends": ["asyncio", "trio"], "config": config, "conn": {},
                "apps": {"default": [["recv_until_end"], ["respond", 200, [], b"d"]], "by_tag": by_tag},
                "client": [["feed", blob], ["settle"]] + ([["react", "settings", {"4": iw + 1}]] if first == "settings_iw" else []) +
-                         [["react", "credit_only", 3, need], ["react", "credit_only", 0, need], ["feed", batch], ["settle"]], "reactor": rspec,
+                         [["react", "credit_only", 3, need], ["react", "credit_only", 0, need]] +
+                         # the two halves in one write, or the second one arriving k scheduler turns into the server's reaction to the first
+                         ([["feed", batch + batch2]] if stagger is None else [["feed_nosettle", batch], ["turns", stagger], ["feed", batch2]]) +
+                         [["settle"]], "reactor": rspec,
                "truth": {"streams": streams, "iw": iw, "mf": 16384, "policy": "batched", "total": size, "prio_cycle": False, "batched": first},
                "sched": {"seed": rng.randrange(1 << 30), "net_jitter": None}, "horizon": 100.0}
 
